@@ -22,24 +22,32 @@ func sfx(i int) string { return strconv.Itoa(i) }
 
 var fedShapes = []fedShape{
 	{ // 0 Alpha by id
-		rep:     func(i int) map[string]any { return map[string]any{"__typename": "Alpha", "id": "a" + sfx(i)} },
-		want:    func(i int) string { return `{"__typename":"Alpha","id":"a` + sfx(i) + `","name":"name-of-a` + sfx(i) + `"}` },
+		rep: func(i int) map[string]any { return map[string]any{"__typename": "Alpha", "id": "a" + sfx(i)} },
+		want: func(i int) string {
+			return `{"__typename":"Alpha","id":"a` + sfx(i) + `","name":"name-of-a` + sfx(i) + `"}`
+		},
 		lookups: func(i int) string { return "AlphaByID:a" + sfx(i) },
 	},
 	{ // 1 Alpha by name
-		rep:     func(i int) map[string]any { return map[string]any{"__typename": "Alpha", "name": "n" + sfx(i)} },
-		want:    func(i int) string { return `{"__typename":"Alpha","id":"id-of-n` + sfx(i) + `","name":"n` + sfx(i) + `"}` },
+		rep: func(i int) map[string]any { return map[string]any{"__typename": "Alpha", "name": "n" + sfx(i)} },
+		want: func(i int) string {
+			return `{"__typename":"Alpha","id":"id-of-n` + sfx(i) + `","name":"n` + sfx(i) + `"}`
+		},
 		lookups: func(i int) string { return "AlphaByName:n" + sfx(i) },
 	},
 	{ // 2 Beta (multi) by id
-		rep:     func(i int) map[string]any { return map[string]any{"__typename": "Beta", "id": "b" + sfx(i)} },
-		want:    func(i int) string { return `{"__typename":"Beta","id":"b` + sfx(i) + `","name":"name-of-b` + sfx(i) + `"}` },
+		rep: func(i int) map[string]any { return map[string]any{"__typename": "Beta", "id": "b" + sfx(i)} },
+		want: func(i int) string {
+			return `{"__typename":"Beta","id":"b` + sfx(i) + `","name":"name-of-b` + sfx(i) + `"}`
+		},
 		multi:   "BetaByIDs",
 		batchID: func(i int) string { return "b" + sfx(i) },
 	},
 	{ // 3 Beta (multi) by name
-		rep:     func(i int) map[string]any { return map[string]any{"__typename": "Beta", "name": "bn" + sfx(i)} },
-		want:    func(i int) string { return `{"__typename":"Beta","id":"id-of-bn` + sfx(i) + `","name":"bn` + sfx(i) + `"}` },
+		rep: func(i int) map[string]any { return map[string]any{"__typename": "Beta", "name": "bn" + sfx(i)} },
+		want: func(i int) string {
+			return `{"__typename":"Beta","id":"id-of-bn` + sfx(i) + `","name":"bn` + sfx(i) + `"}`
+		},
 		multi:   "BetaByNames",
 		batchID: func(i int) string { return "bn" + sfx(i) },
 	},
@@ -47,20 +55,23 @@ var fedShapes = []fedShape{
 		rep: func(i int) map[string]any {
 			return map[string]any{"__typename": "Gamma", "owner": map[string]any{"id": "o" + sfx(i)}}
 		},
-		want:    func(i int) string { return `{"__typename":"Gamma","note":"note-o` + sfx(i) + `","owner":{"id":"o` + sfx(i) + `"}}` },
+		want: func(i int) string {
+			return `{"__typename":"Gamma","note":"note-o` + sfx(i) + `","owner":{"id":"o` + sfx(i) + `"}}`
+		},
 		lookups: func(i int) string { return "GammaByOwnerID:o" + sfx(i) },
 	},
 	{ // 5 Delta with @requires(size) taken from the same representation
 		rep: func(i int) map[string]any {
-			return map[string]any{"__typename": "Delta", "id": "d" + sfx(i), "size": json.Number(strconv.Itoa(50 + i))}
+			return map[string]any{"__typename": "Delta", "id": "d" + sfx(i), "size": json.Number(strconv.Itoa(50 + i)), "dims": fedDims(i)}
 		},
 		want: func(i int) string {
 			if probeConfigName == "fed_computed" {
-				// computed_requires: the external field is not stored on the entity; the resolver of the
-				// requiring field receives this representation's required fields (weight = 1000 + size)
-				return `{"__typename":"Delta","id":"d` + sfx(i) + `","size":0,"weight":` + strconv.Itoa(1050+i) + `}`
+				// computed_requires: the external fields are not stored on the entity; the resolver of a
+				// requiring field receives this representation's required fields (weight = 1000 + size + width,
+				// area = width * height + size)
+				return `{"__typename":"Delta","area":` + strconv.Itoa((3+i)*(5+i)+50+i) + `,"dims":{"height":0,"width":0},"id":"d` + sfx(i) + `","size":0,"weight":` + strconv.Itoa(1050+i+3+i) + `}`
 			}
-			return `{"__typename":"Delta","id":"d` + sfx(i) + `","size":` + strconv.Itoa(50+i) + `,"weight":1000}`
+			return `{"__typename":"Delta","area":2000,"dims":` + fedDimsJSON(i) + `,"id":"d` + sfx(i) + `","size":` + strconv.Itoa(50+i) + `,"weight":1000}`
 		},
 		lookups: func(i int) string { return "DeltaByID:d" + sfx(i) },
 	},
@@ -77,8 +88,12 @@ var fedShapes = []fedShape{
 		want: func(i int) string { return "null" },
 	},
 	{ // 9 first key null: the second key identifies the entity
-		rep:     func(i int) map[string]any { return map[string]any{"__typename": "Alpha", "id": nil, "name": "n" + sfx(i)} },
-		want:    func(i int) string { return `{"__typename":"Alpha","id":"id-of-n` + sfx(i) + `","name":"n` + sfx(i) + `"}` },
+		rep: func(i int) map[string]any {
+			return map[string]any{"__typename": "Alpha", "id": nil, "name": "n" + sfx(i)}
+		},
+		want: func(i int) string {
+			return `{"__typename":"Alpha","id":"id-of-n` + sfx(i) + `","name":"n` + sfx(i) + `"}`
+		},
 		lookups: func(i int) string { return "AlphaByName:n" + sfx(i) },
 	},
 	{ // 11 batch type whose key cannot be unmarshalled: the batch it belongs to fails as a whole (documented batch semantics)
@@ -106,23 +121,43 @@ var fedShapes = []fedShape{
 		lookups: func(i int) string { return "EpsilonBySkuAndVariant:s" + sfx(i) + "/NIL" },
 	},
 	{ // 14 second key of the compound-key type
-		rep:     func(i int) map[string]any { return map[string]any{"__typename": "Epsilon", "upc": "u" + sfx(i)} },
-		want:    func(i int) string { return `{"__typename":"Epsilon","sku":"sku-of-u` + sfx(i) + `","upc":"u` + sfx(i) + `","variant":null}` },
+		rep: func(i int) map[string]any { return map[string]any{"__typename": "Epsilon", "upc": "u" + sfx(i)} },
+		want: func(i int) string {
+			return `{"__typename":"Epsilon","sku":"sku-of-u` + sfx(i) + `","upc":"u` + sfx(i) + `","variant":null}`
+		},
 		lookups: func(i int) string { return "EpsilonByUpc:u" + sfx(i) },
+	},
+	{ // 17 an entity that is nothing but its key
+		rep:     func(i int) map[string]any { return map[string]any{"__typename": "Theta", "id": "t" + sfx(i)} },
+		want:    func(i int) string { return `{"__typename":"Theta","id":"t` + sfx(i) + `"}` },
+		lookups: func(i int) string { return "ThetaByID:t" + sfx(i) },
+	},
+	{ // 18 the same with a nested key
+		rep: func(i int) map[string]any {
+			return map[string]any{"__typename": "Iota", "owner": map[string]any{"id": "io" + sfx(i)}}
+		},
+		want: func(i int) string {
+			return `{"__typename":"Iota","owner":{"id":"io` + sfx(i) + `","name":"name-of-io` + sfx(i) + `"}}`
+		},
+		lookups: func(i int) string { return "IotaByOwnerID:io" + sfx(i) },
 	},
 	{ // 15 batch entity with @requires, first key: the required field comes from this very representation
 		rep: func(i int) map[string]any {
-			return map[string]any{"__typename": "Zeta", "id": "z" + sfx(i), "size": json.Number(strconv.Itoa(30 + i))}
+			return map[string]any{"__typename": "Zeta", "id": "z" + sfx(i), "size": json.Number(strconv.Itoa(30 + i)), "dims": fedDims(i)}
 		},
-		want:    func(i int) string { return `{"__typename":"Zeta","id":"z` + sfx(i) + `","name":"name-of-z` + sfx(i) + `","size":` + strconv.Itoa(30+i) + `}` },
+		want: func(i int) string {
+			return `{"__typename":"Zeta","dims":` + fedDimsJSON(i) + `,"id":"z` + sfx(i) + `","name":"name-of-z` + sfx(i) + `","size":` + strconv.Itoa(30+i) + `}`
+		},
 		multi:   "ZetaByIDs",
 		batchID: func(i int) string { return "z" + sfx(i) },
 	},
 	{ // 16 the same entity by its second key
 		rep: func(i int) map[string]any {
-			return map[string]any{"__typename": "Zeta", "name": "zn" + sfx(i), "size": json.Number(strconv.Itoa(70 + i))}
+			return map[string]any{"__typename": "Zeta", "name": "zn" + sfx(i), "size": json.Number(strconv.Itoa(70 + i)), "dims": fedDims(i)}
 		},
-		want:    func(i int) string { return `{"__typename":"Zeta","id":"id-of-zn` + sfx(i) + `","name":"zn` + sfx(i) + `","size":` + strconv.Itoa(70+i) + `}` },
+		want: func(i int) string {
+			return `{"__typename":"Zeta","dims":` + fedDimsJSON(i) + `,"id":"id-of-zn` + sfx(i) + `","name":"zn` + sfx(i) + `","size":` + strconv.Itoa(70+i) + `}`
+		},
 		multi:   "ZetaByNames",
 		batchID: func(i int) string { return "zn" + sfx(i) },
 	},
@@ -130,6 +165,15 @@ var fedShapes = []fedShape{
 		rep:  func(i int) map[string]any { return map[string]any{"__typename": "Gamma", "owner": "notamap"} },
 		want: func(i int) string { return "null" },
 	},
+}
+
+// the external object several @requires name, each with its own sub-selection
+func fedDims(i int) map[string]any {
+	return map[string]any{"width": json.Number(strconv.Itoa(3 + i)), "height": json.Number(strconv.Itoa(5 + i))}
+}
+
+func fedDimsJSON(i int) string {
+	return `{"height":` + strconv.Itoa(5+i) + `,"width":` + strconv.Itoa(3+i) + `}`
 }
 
 func canon(v any) string {
